@@ -124,6 +124,12 @@ def global_attr_violations(model: Model, files=None, dead: Optional[Dict[str, st
                     continue  # external module
             if n.attr.startswith("__") and n.attr.endswith("__"):
                 continue
+            # `itertools.chain.from_iterable`: a chain of plain attributes rooted at an external module is that module's business
+            r_ = n.value
+            while isinstance(r_, ast.Attribute):
+                r_ = r_.value
+            if isinstance(r_, ast.Name) and r_.id in fi.aliases and model.resolve_module(fi, r_.id) is None and not isinstance(n.value, ast.Name):
+                continue
             if n.attr not in known:
                 out.append((rel, n.attr, n, f"no repository class and no builtin container defines `{n.attr}`"))
     return out, n_checked
